@@ -1,39 +1,267 @@
-(* Props/C06.v — conformance to the documented format (chunk layer; file layer is being added). *)
-From Kestrel Require Import Bytes Outcome IO Prims.
+(* Props/C06.v — property C06: byte-for-byte conformance to the documented, frozen format.
+   Statements only; proofs are in Proofs/CombineFiles.v, ChunksEnc.v, ChunksDec.v, NoiseFacts.v, FilesFacts.v.
+
+   The Gallina development is the executable specification: [spec_chunks] / [record] (Model/Chunks.v),
+   [spec_pass_file] / [spec_key_file] (Model/CombineDefs.v) transcribe docs/file-format.txt;
+   [noise_encrypt_spec] / [noise_decrypt_spec] (Model/NoiseSpec.v) are Noise_X_25519_ChaChaPoly_SHA256 with the
+   token loop unfolded; Spec/*.v are the RFC algorithms, closed by the RFCs' own test vectors (Spec/*Kat.v).
+   The theorems below say (1) the model of the ENCRYPTOR (a faithful transcription of the Rust control flow over
+   scripted I/O) writes exactly the specified bytes, for all inputs and all conforming read partitions and write
+   schedules, and (2) EVERY file of the specified format — any legal chunking, not only those the encryptor
+   emits — is decrypted by the model of the DECRYPTOR to its plaintext and sender.
+   NOT a theorem here (checked by the correspondence runs instead): that the Rust binary's bytes equal the
+   model's; that orion's primitives equal the RFC functions; golden files and the frozen corpus. *)
+From Kestrel Require Import Bytes Outcome IO IOFacts Prims.
 From Kestrel.gen Require Import Extracted.
-From Kestrel.Model Require Import AeadWrap Chunks Files.
-From Kestrel.Proofs Require Import ChunksDec.
+From Kestrel.Model Require Import AeadWrap Chunks Noise NoiseSpec Files EventPreds FilesSpec ChunksSpec CombineDefs.
+From Kestrel.Spec Require Import Concrete.
+From Kestrel.Proofs Require Import ChunksDec ChunksEnc NoiseFacts FilesFacts PrimFacts CombineFiles.
 Local Open Scope N_scope.
 
-(* EVERY file conforming to the documented chunk format — any non-empty list of chunks of 0..cs bytes, not
-   only chunkings the encryptor emits — decrypts to the concatenation of its chunks, under every
-   conforming read/write schedule. *)
+(* ENCRYPTOR = FORMAT, password mode.  For every password, salt, plaintext, conforming read partition and write schedule: pass_encrypt returns Ok and appends exactly spec_pass_file pw salt chunks to the sink, where chunks are the successive non-empty results of its read(65536) calls (one empty chunk for an empty input).  The output depends on the read script only through that list, and not at all on the write caps. *)
+Theorem C06_pass_encrypt_is_spec :
+  forall (P : prims) (pw salt : bytes) (s0 : io),
+  hash_ok P ->
+  reader_ok (rdr s0) ->
+  writer_ok (wtr s0) ->
+  exists s0' : io,
+    pass_encrypt P pw salt s0 = (Ok tt, s0') /\
+    w_out (wtr s0') =
+    w_out (wtr s0) ++ spec_pass_file P pw salt (chunks_of_reads (reads_of (N.to_nat cs_const) (rdr s0))) /\
+    r_data (rdr s0') = [] /\ reader_ok (rdr s0') /\ writer_ok (wtr s0').
+Proof. exact (pass_encrypt_output). Qed.
+Print Assumptions C06_pass_encrypt_is_spec.
+
+(* ENCRYPTOR = FORMAT, key mode: whenever the Noise layer produced (msg, hh), key_encrypt appends exactly prologue ++ msg ++ chunk stream under HKDF("", payload key, hh) *)
+Theorem C06_key_encrypt_is_spec :
+  forall (P : prims) (fresh_pk fresh_e s spk rpk : bytes) (e epk pk : option bytes) 
+    (s0 : io) (msg hh : bytes),
+  hash_ok P ->
+  length (payload_of fresh_pk pk) = 32%nat ->
+  noise_encrypt P fresh_e s spk rpk e epk x_prologue (payload_of fresh_pk pk) = Ok (msg, hh) ->
+  reader_ok (rdr s0) ->
+  writer_ok (wtr s0) ->
+  exists s0' : io,
+    key_encrypt P fresh_pk fresh_e s spk rpk e epk pk s0 = (Ok tt, s0') /\
+    w_out (wtr s0') =
+    w_out (wtr s0) ++
+    spec_key_file P msg hh (payload_of fresh_pk pk)
+      (chunks_of_reads (reads_of (N.to_nat cs_const) (rdr s0))) /\
+    r_data (rdr s0') = [] /\ reader_ok (rdr s0') /\ writer_ok (wtr s0').
+Proof. exact (key_encrypt_output). Qed.
+Print Assumptions C06_key_encrypt_is_spec.
+
+(* the Noise initiator as modelled (generic token loop over the EXTRACTED pattern [e; es; s; ss], CipherState/SymmetricState objects) equals the closed-form specification, for all keys and payloads *)
+Theorem C06_noise_encrypt_is_spec :
+  forall P : prims,
+  hash_ok P ->
+  forall (fresh_e : bytes) (s : list N) (spk : bytes) (rpk : list N) (e epk : option bytes)
+    (prologue payload e' epk' : bytes),
+  eph_of P fresh_e e epk = (e', epk') ->
+  length e' = 32%nat ->
+  length s = 32%nat ->
+  length rpk = 32%nat ->
+  noise_encrypt P fresh_e s spk rpk e epk prologue payload =
+  noise_encrypt_spec P e' epk' s spk rpk prologue payload.
+Proof. exact (noise_encrypt_eq). Qed.
+Print Assumptions C06_noise_encrypt_is_spec.
+
+(* the Noise responder as modelled equals the closed-form specification, for every message of every length (lengths outside 96..65535 are rejected) *)
+Theorem C06_noise_decrypt_is_spec :
+  forall P : prims,
+  hash_ok P ->
+  forall (r : list N) (rpk prologue msg : bytes),
+  length r = 32%nat ->
+  noise_decrypt P r rpk prologue msg =
+  (if noise_len_ok (length msg) then noise_decrypt_spec P r rpk prologue msg else Err NOther).
+Proof. exact (noise_decrypt_eq). Qed.
+Print Assumptions C06_noise_decrypt_is_spec.
+
+(* the handshake message is: ephemeral public key in clear ++ AEAD(static public key) ++ AEAD(payload key), with the documented keys and associated data *)
+Theorem C06_handshake_message_layout :
+  forall (P : prims) (e epk s spk rpk prologue payload msg hh : bytes),
+  noise_encrypt_spec P e epk s spk rpk prologue payload = Ok (msg, hh) ->
+  all_zero (p_dh P e rpk) = false /\
+  all_zero (p_dh P s rpk) = false /\
+  msg =
+  epk ++
+  hs_c1 P prologue rpk epk spk (p_dh P e rpk) ++
+  hs_c2 P prologue rpk epk spk (p_dh P e rpk) (p_dh P s rpk) payload.
+Proof. exact (noise_msg_shape). Qed.
+Print Assumptions C06_handshake_message_layout.
+
+(* chunk layer: encrypt_chunks writes exactly spec_chunks for the chunking given by its reads *)
+Theorem C06_encrypt_chunks_is_spec :
+  forall (P : prims) (key aad : bytes) (cs : N) (s : io),
+  length key = 32%nat ->
+  1 <= cs ->
+  reader_ok (rdr s) ->
+  writer_ok (wtr s) ->
+  exists s' : io,
+    encrypt_chunks P key aad cs s = (Ok tt, s') /\
+    w_out (wtr s') =
+    w_out (wtr s) ++ spec_chunks P key aad (chunks_of_reads (reads_of (N.to_nat cs) (rdr s))) /\
+    r_data (rdr s') = [] /\ reader_ok (rdr s') /\ writer_ok (wtr s').
+Proof. exact (enc_spec_ok). Qed.
+Print Assumptions C06_encrypt_chunks_is_spec.
+
+(* DECRYPTOR ACCEPTS THE FORMAT, chunk layer (kept): EVERY non-empty list of chunks of 0..cs bytes decrypts to the concatenation of its chunks, under every conforming schedule *)
 Theorem C06_any_legal_chunking_decrypts :
-  forall (P : prims) (key aad : bytes) (cs : N), length key = 32%nat -> aead_ok P -> cs < 4294967296 ->
-  forall chunks n s fuel, chunks <> [] -> Forall (chunk_ok cs) chunks ->
-    reader_ok (rdr s) -> writer_ok (wtr s) ->
-    r_data (rdr s) = spec_chunks_from P key aad n chunks -> (length chunks <= fuel)%nat ->
-    exists s', decrypt_chunks_loop P fuel key aad cs n s = (Ok tt, s') /\
-               w_out (wtr s') = w_out (wtr s) ++ concat chunks /\ r_data (rdr s') = [].
-Proof. intros P key aad cs Hk Ha Hc. exact (dec_spec_chunks_ok P key aad cs Hk Ha Hc). Qed.
+  forall (P : prims) (key aad : bytes) (cs : N),
+  length key = 32%nat ->
+  aead_ok P ->
+  cs < 4294967296 ->
+  forall (chunks : list bytes) (n : N) (s : io) (fuel : nat),
+  chunks <> [] ->
+  Forall (chunk_ok cs) chunks ->
+  reader_ok (rdr s) ->
+  writer_ok (wtr s) ->
+  r_data (rdr s) = spec_chunks_from P key aad n chunks ->
+  (length chunks <= fuel)%nat ->
+  exists s' : io,
+    decrypt_chunks_loop P fuel key aad cs n s = (Ok tt, s') /\
+    w_out (wtr s') = w_out (wtr s) ++ concat chunks /\ r_data (rdr s') = [].
+Proof. exact (dec_spec_chunks_ok). Qed.
 Print Assumptions C06_any_legal_chunking_decrypts.
 
-(* the constants the translator extracted from the current sources are the documented ones, and the
-   encrypt side, the decrypt side and the keyring agree with each other *)
+(* FILE level, password mode: every file of the documented format — magic, any 32-byte salt, ANY legal chunking (non-empty list of chunks of 0..65536 bytes) — decrypts under its password to the concatenation of its chunks, under every conforming schedule, consuming the whole file *)
+Theorem C06_any_legal_pass_file_decrypts :
+  forall P : prims,
+  aead_ok P ->
+  hash_ok P ->
+  forall (pw : bytes) (salt : list N) (chunks : list bytes) (s : io),
+  length salt = 32%nat ->
+  chunks <> [] ->
+  Forall (chunk_ok cs_const) chunks ->
+  reader_ok (rdr s) ->
+  writer_ok (wtr s) ->
+  r_data (rdr s) = spec_pass_file P pw salt chunks ->
+  exists s' : io,
+    pass_decrypt P pw s = (Ok tt, s') /\
+    w_out (wtr s') = w_out (wtr s) ++ concat chunks /\ r_data (rdr s') = [].
+Proof. exact (spec_pass_file_decrypts). Qed.
+Print Assumptions C06_any_legal_pass_file_decrypts.
+
+(* FILE level, key mode: prologue, any 128-byte handshake message that verifies under (r, rpk) with result (payload, spk, hh), any legal chunking under the derived file key: decrypts to the concatenation of the chunks and reports spk *)
+Theorem C06_any_legal_key_file_decrypts :
+  forall P : prims,
+  aead_ok P ->
+  hash_ok P ->
+  forall (r rpk : bytes) (msg : list N) (hh payload spk : bytes) (chunks : list bytes) (s : io),
+  length msg = 128%nat ->
+  noise_decrypt P r rpk x_prologue msg = Ok (payload, spk, hh) ->
+  chunks <> [] ->
+  Forall (chunk_ok cs_const) chunks ->
+  reader_ok (rdr s) ->
+  writer_ok (wtr s) ->
+  r_data (rdr s) = spec_key_file P msg hh payload chunks ->
+  exists s' : io,
+    key_decrypt P r rpk s = (Ok spk, s') /\
+    w_out (wtr s') = w_out (wtr s) ++ concat chunks /\ r_data (rdr s') = [].
+Proof. exact (spec_key_file_decrypts). Qed.
+Print Assumptions C06_any_legal_key_file_decrypts.
+
+(* one record, literally: be64 counter || be32 last-flag || be32 length || AEAD output, nonce = 00 00 00 00 || le64 counter, associated data = aad || be32 last-flag || be32 length *)
+Theorem C06_record_layout :
+  forall (P : prims) (key aad : bytes) (n : N) (is_last : bool) (c : bytes),
+  record P key aad n is_last c =
+  be64 n ++
+  be32 (if is_last then 1 else 0) ++
+  be32 (N.of_nat (length c)) ++
+  p_seal P key (zeros 4 ++ le64 n)
+    (aad ++ be32 (if is_last then 1 else 0) ++ be32 (N.of_nat (length c))) c.
+Proof. exact (record_layout). Qed.
+Print Assumptions C06_record_layout.
+
+(* the 12-byte nonce for every counter value *)
+Theorem C06_noise_nonce_layout :
+  forall n : N, noise_nonce n = [0; 0; 0; 0] ++ le64 n.
+Proof. exact (noise_nonce_layout). Qed.
+Print Assumptions C06_noise_nonce_layout.
+
+(* file key = HKDF-SHA256(salt = "", ikm = payload key, info = handshake hash, 32 bytes) *)
+Theorem C06_file_key_layout :
+  forall (P : prims) (payload hh : bytes), file_key P payload hh = p_hkdf P [] payload hh 32.
+Proof. exact (file_key_layout). Qed.
+Print Assumptions C06_file_key_layout.
+
+(* password key = scrypt(password, salt, N = 32768, r = 8, p = 1, 32 bytes) *)
+Theorem C06_kdf_layout :
+  forall (P : prims) (pw salt : bytes), kdf P pw salt = p_scrypt P pw salt 32768 8 1 32.
+Proof. exact (kdf_layout). Qed.
+Print Assumptions C06_kdf_layout.
+
+(* (kept) the constants the translator extracted from the current sources are the documented ones, and the encrypt side, the decrypt side and the keyring agree with each other *)
 Theorem C06_layout_constants :
-  x_prologue = [101; 103; 107; 16] /\ x_pass_file_magic = [101; 103; 107; 32] /\
-  x_dec_asym_v1 = x_prologue /\ x_dec_pass_v1 = x_pass_file_magic /\
-  valid_file_format x_prologue = Some AsymV1 /\ valid_file_format x_pass_file_magic = Some PassV1 /\
-  x_lib_chunk_size = 65536 /\ x_lib_tag_size = 16 /\
-  x_lib_scrypt_n = 32768 /\ x_lib_scrypt_r = 8 /\ x_lib_scrypt_p = 1 /\
-  x_enc_scrypt_args_const = 1 /\ x_dec_scrypt_args_const = 1 /\ x_enc_scrypt_len = 32 /\ x_dec_scrypt_len = 32 /\
-  x_enc_hkdf_salt_empty = 1 /\ x_dec_hkdf_salt_empty = 1 /\ x_enc_hkdf_len = 32 /\ x_dec_hkdf_len = 32 /\
-  x_enc_key_aad_empty = 1 /\ x_dec_key_aad_empty = 1 /\
-  x_enc_key_cs_is_const = 1 /\ x_dec_key_cs_is_const = 1 /\ x_enc_pass_cs_is_const = 1 /\ x_dec_pass_cs_is_const = 1 /\
-  x_dec_prologue_len = 4 /\ x_dec_handshake_len = 128 /\ x_dec_magic_len = 4 /\ x_dec_salt_len = 32 /\
-  x_enc_chunk_header_len = 16 /\ x_dec_chunk_header_len = 16 /\ x_dec_last_flag = 1 /\
-  x_noise_nonce_len = 12 /\ x_noise_nonce_off_enc = 4 /\ x_noise_nonce_off_dec = 4 /\
-  x_noise_pattern = [TE; TES; TS; TSS] /\ x_noise_hash_len = 32 /\ x_noise_dh_len = 32 /\
-  length x_noise_protocol_name = 31%nat.
-Proof. repeat split; reflexivity. Qed.
+  x_prologue = [101; 103; 107; 16] /\
+  x_pass_file_magic = [101; 103; 107; 32] /\
+  x_dec_asym_v1 = x_prologue /\
+  x_dec_pass_v1 = x_pass_file_magic /\
+  valid_file_format x_prologue = Some AsymV1 /\
+  valid_file_format x_pass_file_magic = Some PassV1 /\
+  x_lib_chunk_size = 65536 /\
+  x_lib_tag_size = 16 /\
+  x_lib_scrypt_n = 32768 /\
+  x_lib_scrypt_r = 8 /\
+  x_lib_scrypt_p = 1 /\
+  x_enc_scrypt_args_const = 1 /\
+  x_dec_scrypt_args_const = 1 /\
+  x_enc_scrypt_len = 32 /\
+  x_dec_scrypt_len = 32 /\
+  x_enc_hkdf_salt_empty = 1 /\
+  x_dec_hkdf_salt_empty = 1 /\
+  x_enc_hkdf_len = 32 /\
+  x_dec_hkdf_len = 32 /\
+  x_enc_key_aad_empty = 1 /\
+  x_dec_key_aad_empty = 1 /\
+  x_enc_key_cs_is_const = 1 /\
+  x_dec_key_cs_is_const = 1 /\
+  x_enc_pass_cs_is_const = 1 /\
+  x_dec_pass_cs_is_const = 1 /\
+  x_dec_prologue_len = 4 /\
+  x_dec_handshake_len = 128 /\
+  x_dec_magic_len = 4 /\
+  x_dec_salt_len = 32 /\
+  x_enc_chunk_header_len = 16 /\
+  x_dec_chunk_header_len = 16 /\
+  x_dec_last_flag = 1 /\
+  x_noise_nonce_len = 12 /\
+  x_noise_nonce_off_enc = 4 /\
+  x_noise_nonce_off_dec = 4 /\
+  x_noise_pattern = [TE; TES; TS; TSS] /\
+  x_noise_hash_len = 32 /\ x_noise_dh_len = 32 /\ length x_noise_protocol_name = 31%nat.
+Proof. exact (layout_constants). Qed.
 Print Assumptions C06_layout_constants.
+
+(* valid_file_format recognises exactly the two magics ... *)
+Theorem C06_format_dispatch_asym :
+  forall hdr : bytes, valid_file_format hdr = Some AsymV1 <-> hdr = x_prologue.
+Proof. exact (vff_asym_iff). Qed.
+Print Assumptions C06_format_dispatch_asym.
+
+(* ... *)
+Theorem C06_format_dispatch_pass :
+  forall hdr : bytes, valid_file_format hdr = Some PassV1 <-> hdr = x_pass_file_magic.
+Proof. exact (vff_pass_iff). Qed.
+Print Assumptions C06_format_dispatch_pass.
+
+(* ... and nothing else *)
+Theorem C06_format_dispatch_other :
+  forall hdr : bytes, valid_file_format hdr = None <-> hdr <> x_prologue /\ hdr <> x_pass_file_magic.
+Proof. exact (vff_none_iff). Qed.
+Print Assumptions C06_format_dispatch_other.
+
+(* the abstract laws used above are PROVED for the RFC 8439 transcription ... *)
+Theorem C06_rfc_instance_aead_laws :
+  forall scr : bytes -> bytes -> N -> N -> N -> nat -> bytes, aead_ok (rfc_prims scr).
+Proof. exact (rfc_aead_ok). Qed.
+Print Assumptions C06_rfc_instance_aead_laws.
+
+(* ... and for SHA-256 / HMAC / HKDF / X25519 output lengths (scrypt's length is a hypothesis on the supplied scrypt function) *)
+Theorem C06_rfc_instance_hash_laws :
+  forall scr : bytes -> bytes -> N -> N -> N -> nat -> list N,
+  (forall (pw s : bytes) (n r q : N) (l : nat), length (scr pw s n r q l) = l) ->
+  hash_ok (rfc_prims scr).
+Proof. exact (rfc_hash_ok). Qed.
+Print Assumptions C06_rfc_instance_hash_laws.
+
